@@ -293,6 +293,22 @@ def run(ctx):
                 if rule:
                     ctx.sample({"obligation": kind, "in": short, "rule": rule, "detail": detail}, limit=30)
         ctx.extra["obligations_found"] = n_ob
+        if ctx.tier == "thorough":
+            from .clippyxref import cross_reference
+            cross_reference(ctx, [o[1] for o in seen_ob], files=["src/arbitrary.rs"])
+        # "the value can be formatted, cloned, compared ... without fault": no panic-capable construct in the /repo instances
+        # reachable from the derived Debug / Clone / PartialEq of the three request types (dispatching is C10)
+        from . import oblig_rules as OR
+        n_aux = 0
+        for ty in ("ctap1::Request<'a>", "ctap2::Request<'a>", "authenticator::Request<'a>"):
+            for tr, m in (("core::fmt::Debug", "fmt"), ("core::clone::Clone", "clone"), ("core::cmp::PartialEq", "eq")):
+                spec = "<%s as %s>::%s" % (ty, tr, m)
+                if F.mono_root(spec) is None:
+                    ctx.oblige("C19|use|root|" + spec, False, "anchor missing: %s (the generated value can no longer be %s)" % (spec, m), cfg=cfg)
+                    continue
+                n_aux += 1
+                OR.check_root(ctx, F, cfg, "C19|use", spec, what="while using a generated request")
+        ctx.floor("Debug/Clone/PartialEq roots of the request types", n_aux, 9, cfg=cfg)
         want_helpers = {"arbitrary::arbitrary_byte_array", "arbitrary::arbitrary_bytes", "arbitrary::arbitrary_vec", "arbitrary::arbitrary_str", "arbitrary::arbitrary_option", "arbitrary::arbitrary_key"}
         ctx.oblige("C19|helpers", want_helpers <= helpers, "helper functions of src/arbitrary.rs not reachable from the roots: %s" % sorted(want_helpers - helpers), cfg=cfg, nontrivial=False)
         # who-may-call for the lifetime-unconstrained helper
